@@ -7,6 +7,7 @@ import (
 	"crypto/rand"
 	"crypto/rsa"
 	"crypto/x509/pkix"
+	"encoding/asn1"
 	"hash"
 	"io"
 	"math/big"
@@ -26,11 +27,27 @@ var zzTBS []byte
 func zzStubAsn1Marshal(val interface{}) ([]byte, error) {
 	out := vBytes("asn1."+strconv.Itoa(zzAsn1Calls), 6, 6)
 	zzAsn1Calls++
-	switch val.(type) {
-	case tbsCertificate, tbsCertificateRequest, pkix.TBSCertificateList:
+	switch t := val.(type) {
+	case tbsCertificate, tbsCertificateRequest:
 		zzTBS = out
+	case pkix.TBSCertificateList:
+		zzTBS = out
+		zzCRLIssuer = t.Issuer
 	}
 	return out, nil
+}
+
+// the issuer name written into the last CRL, and the stand-in for an issuing certificate's
+// encoded subject with attributes pkix.Name has no field for (emailAddress, DC)
+var zzCRLIssuer pkix.RDNSequence
+var zzRawSubjectToken = []byte{0x30, 0x99}
+
+func zzRawSubjectRDN() pkix.RDNSequence {
+	return pkix.RDNSequence{
+		{{Type: asn1.ObjectIdentifier{2, 5, 4, 3}, Value: "zz"}},
+		{{Type: asn1.ObjectIdentifier{1, 2, 840, 113549, 1, 9, 1}, Value: "ca@example.com"}},
+		{{Type: asn1.ObjectIdentifier{0, 9, 2342, 19200300, 100, 1, 25}, Value: "example"}},
+	}
 }
 
 func zzStubMarshalPublicKey(pub interface{}) ([]byte, pkix.AlgorithmIdentifier, error) {
@@ -55,7 +72,7 @@ func (h *zzHash) Reset()         { h.data = nil }
 func (h *zzHash) Size() int      { return 8 }
 func (h *zzHash) BlockSize() int { return 64 }
 
-func zzStubHashNew(h Hash) hash.Hash   { return &zzHash{id: h} }
+func zzStubHashNew(h Hash) hash.Hash  { return &zzHash{id: h} }
 func zzStubHashAvailable(h Hash) bool { return h > 0 }
 
 // recording signer / verifiers
@@ -109,6 +126,9 @@ func zzStubSm2Verify(pub *sm2.PublicKey, msg, uid []byte, r, s *big.Int) bool {
 func zzStubAsn1Unmarshal09(b []byte, val interface{}) ([]byte, error) {
 	if s, ok := val.(*ecdsaSignature); ok {
 		s.R, s.S = big.NewInt(1), big.NewInt(1)
+	}
+	if r, ok := val.(*pkix.RDNSequence); ok && len(b) == 2 && b[0] == 0x30 && b[1] == 0x99 {
+		*r = zzRawSubjectRDN()
 	}
 	return nil, nil
 }
@@ -355,6 +375,18 @@ func zzH_c09_signconv_crl() {
 		ThisUpdate: time.Unix(1000, 0), NextUpdate: time.Unix(2000, 0)}
 	if vNative() {
 		signer := zzNativeSigner(fam)
+		// a real issuing certificate whose subject has attributes outside pkix.Name's fields
+		ct := &Certificate{SerialNumber: big.NewInt(7), NotBefore: time.Unix(1000, 0), NotAfter: time.Unix(2000000000, 0),
+			IsCA: true, BasicConstraintsValid: true, KeyUsage: KeyUsageCRLSign | KeyUsageCertSign, SubjectKeyId: []byte{1, 2, 3},
+			Subject: pkix.Name{CommonName: "zz", ExtraNames: []pkix.AttributeTypeAndValue{
+				{Type: asn1.ObjectIdentifier{1, 2, 840, 113549, 1, 9, 1}, Value: "ca@example.com"},
+				{Type: asn1.ObjectIdentifier{0, 9, 2342, 19200300, 100, 1, 25}, Value: "example"}}}}
+		subKey, _ := sm2.GenerateKey(rand.Reader) // (CreateCertificate takes SM2 subject keys only; the name is what matters here)
+		if cder, cerr := CreateCertificate(ct, ct, &subKey.PublicKey, signer); cerr == nil {
+			if pc, perr := ParseCertificate(cder); perr == nil {
+				issuer = pc
+			}
+		}
 		der, err := CreateRevocationList(rand.Reader, tmpl, issuer, signer)
 		if err != nil {
 			return
@@ -365,6 +397,17 @@ func zzH_c09_signconv_crl() {
 		if perr != nil {
 			return
 		}
+		if len(issuer.RawSubject) > 0 {
+			var want pkix.RDNSequence
+			asn1.Unmarshal(issuer.RawSubject, &want)
+			vAssert("crl-issuer-is-the-issuing-certificates-subject", len(crl.TBSCertList.Issuer) == len(want))
+			// the older entry point
+			if lder, lerr := issuer.CreateCRL(rand.Reader, signer, nil, time.Unix(1000, 0), time.Unix(2000, 0)); lerr == nil {
+				if lcrl, lperr := ParseCRL(lder); lperr == nil {
+					vAssert("crl-issuer-is-the-issuing-certificates-subject", len(lcrl.TBSCertList.Issuer) == len(want))
+				}
+			}
+		}
 		pub := signer.Public()
 		if sp, ok := pub.(*sm2.PublicKey); ok {
 			pub = &ecdsa.PublicKey{Curve: sp.Curve, X: sp.X, Y: sp.Y}
@@ -374,12 +417,28 @@ func zzH_c09_signconv_crl() {
 		return
 	}
 	signer := zzSymSigner(fam)
-	_, err := CreateRevocationList(rand.Reader, tmpl, issuer, signer)
+	// an issuing certificate that was parsed carries its encoded subject, which may hold
+	// attributes the Name structure has no field for
+	parsed := vBool("issuerWasParsed")
+	if parsed {
+		issuer.RawSubject = zzRawSubjectToken
+	}
+	var err error
+	zzCRLIssuer = nil
+	if vBool("legacyCreateCRL") {
+		_, err = issuer.CreateCRL(rand.Reader, signer, nil, time.Unix(1000, 0), time.Unix(2000, 0))
+		if err == nil {
+			vAssert("crl-issuer-is-the-issuing-certificates-subject", len(zzCRLIssuer) == map[bool]int{true: 3, false: 1}[parsed])
+		}
+		return
+	}
+	_, err = CreateRevocationList(rand.Reader, tmpl, issuer, signer)
 	if err != nil {
 		vReach("refused")
 		return
 	}
 	vReach("created")
+	vAssert("crl-issuer-is-the-issuing-certificates-subject", len(zzCRLIssuer) == map[bool]int{true: 3, false: 1}[parsed])
 	valgo := zzVerifyAlgo(signer, algo)
 	pub := signer.Public()
 	if sp, ok := pub.(*sm2.PublicKey); ok {
